@@ -9,6 +9,8 @@ pub mod edwards;
 pub mod helpers;
 pub mod scalar;
 pub mod scalarmul;
+#[cfg(curve25519_dalek_verif)]
+pub mod vector;
 
 /// What an executor returns before wrapping.
 pub enum Out {
@@ -55,6 +57,9 @@ fn dispatch(req: &Req) -> Out {
     {
         if op.starts_with("fe.") {
             return field::exec(op, a);
+        }
+        if op.starts_with("v2.") || op.starts_with("vi.") {
+            return vector::exec(op, a);
         }
     }
     Out::Unknown
